@@ -1,8 +1,8 @@
 (* Shared glue for the drivers of the extracted models.  This file is textually placed
    after "open <ExtractedModule>" so that the constructors O/S, XI/XO/XH, N0/Npos refer
    to that module's datatypes (N and nat stay inductive datatypes: no mapping to int). *)
-let rec nat_of_int i = if i <= 0 then O else S (nat_of_int (i - 1))
-let rec int_of_nat = function O -> 0 | S n -> 1 + int_of_nat n
+let nat_of_int i = let r = ref O in for _ = 1 to i do r := S !r done; !r
+let int_of_nat n = let rec go acc = function O -> acc | S m -> go (acc + 1) m in go 0 n
 
 let rec pos_of_int i = (* i >= 1 *)
   if i = 1 then XH else if i land 1 = 1 then XI (pos_of_int (i lsr 1)) else XO (pos_of_int (i lsr 1))
